@@ -21,7 +21,11 @@ Binding
  (c) spec -> code: the history machine is explored to 4 calls; its histories (thorough: every 4-call history; quick: every
      3-call history, the 4-call family fresh(X), reuse, override(Y # X), reuse, and a seeded sample of the other 4-call
      ones) are replayed with real tile_fits calls on one real directory, all calls of a history in one process, the
-     directory named in turn by its absolute path, a relative path and a differently spelled relative path; after every call the returned Builder's imgset/place must equal the parsed index_rel.wtml
+     directory named in turn by its absolute path, a relative path and a differently spelled relative path.  A second
+     exploration (3 calls) lets one call of a history be INTERRUPTED after its tiles and before its index (Ctrl-C raised by
+     the hook between the last tile and the index, or when the cascade starts; for a single TAN image also the natural
+     route, a keyword the cascade rejects), leaving the PARTIAL directory, and lets calls come through `toasty view`;
+     where no index exists nothing is claimed, whatever index exists after any call is judged.  After every call the returned Builder's imgset/place must equal the parsed index_rel.wtml
      (sentence 2) and the directory must be the one the machine predicts; every directory state also goes through (b).
 """
 import enum
@@ -161,7 +165,11 @@ def make_inputs(d, quick):
 # observation of the real code (pool workers)
 # ------------------------------------------------------------------------------------------------
 
-_HOOK = {"log": None}
+_HOOK = {"log": None, "arm": None, "maxn": -1}
+
+
+class _Interrupted(KeyboardInterrupt):
+    """The user's Ctrl-C (a KeyboardInterrupt, so that no `except Exception` in the code under test swallows it)."""
 
 
 def _install_hooks():
@@ -179,6 +187,11 @@ def _install_hooks():
         return orig_save(self, path_or_stream, *a, **k)
 
     def write_image(self, pos, img, *a, **k):
+        if _HOOK["arm"] == "base":              # interrupt when the cascade starts: the first tile above the base layer
+            if pos[0] < _HOOK["maxn"]:
+                _HOOK["arm"] = None
+                raise _Interrupted("interrupted at the start of the cascade")
+            _HOOK["maxn"] = max(_HOOK["maxn"], pos[0])
         cur["on"], cur["path"] = True, None
         try:
             return orig_write(self, pos, img, *a, **k)
@@ -186,8 +199,18 @@ def _install_hooks():
             log.append((tuple(int(v) for v in pos), cur["path"]))
             cur["on"] = False
 
+    from toasty import builder
+    orig_index = builder.Builder.write_index_rel_wtml
+
+    def write_index_rel_wtml(self, *a, **k):
+        if _HOOK["arm"] is not None:            # interrupt between the last tile and the index
+            _HOOK["arm"] = None
+            raise _Interrupted("interrupted before the index was written")
+        return orig_index(self, *a, **k)
+
     image.Image.save = save
     pyramid.PyramidIO.write_image = write_image
+    builder.Builder.write_index_rel_wtml = write_index_rel_wtml
     _HOOK["log"] = log
     return log
 
@@ -364,14 +387,42 @@ def run_workflow(wf):
                     elif kind == "builder-study":
                         _builder_study(outdir, arg)
                     elif kind == "tile_fits":
-                        existed = os.path.isdir(outdir)
+                        extra["existed"] = os.path.isdir(outdir)
                         given = _spell(outdir, wf.get("path_style", "abs"))
-                        odir, bld = tile_fits(arg["fits"], out_dir=given, parallel=1, override=arg["override"],
-                                              tiling_method=getattr(TilingMethod, arg["method"]))
-                        extra["existed"] = existed
-                        extra["out_dir_ok"] = os.path.abspath(odir) == os.path.abspath(outdir)
-                        extra["ret"] = _describe_builder(bld)
-                        extra["disk"] = _describe_wtml(os.path.join(outdir, "index_rel.wtml"))
+                        how = arg.get("interrupt")
+                        kw = {}
+                        if how == "kw":         # a keyword the cascade rejects after the base layer was written
+                            kw["order"] = "bilinear"
+                        elif how:
+                            _HOOK["arm"], _HOOK["maxn"] = how, -1
+                        try:
+                            odir, bld = tile_fits(arg["fits"], out_dir=given, parallel=1, override=arg["override"],
+                                                  tiling_method=getattr(TilingMethod, arg["method"]), **kw)
+                        except (_Interrupted, TypeError) as e:
+                            if not how or (isinstance(e, TypeError) and how != "kw"):
+                                raise
+                            extra["raised"] = repr(e)
+                        else:
+                            extra["out_dir_ok"] = os.path.abspath(odir) == os.path.abspath(outdir)
+                            extra["ret"] = _describe_builder(bld)
+                            wp = os.path.join(outdir, "index_rel.wtml")
+                            extra["disk"] = _describe_wtml(wp) if os.path.exists(wp) else None
+                        finally:
+                            _HOOK["arm"] = None
+                    elif kind == "view":        # `toasty view --tile-only`: the output directory is derived from the first
+                        #                         input's name; the names it can derive are links to this history's directory
+                        extra["existed"] = os.path.isdir(outdir)
+                        d = os.path.dirname(outdir)
+                        fits = arg["fits"] if isinstance(arg["fits"], list) else [arg["fits"]]
+                        paths = []
+                        for n, src in enumerate(fits):
+                            paths.append(os.path.join(d, "img%d.fits" % n))
+                            shutil.copy(src, paths[-1])
+                        for suffix in ("_tiled", "_tiled_TOAST"):
+                            if not os.path.lexists(os.path.join(d, "img0" + suffix)):
+                                os.symlink(os.path.basename(outdir), os.path.join(d, "img0" + suffix))
+                        method = {"AUTO_DETECT": "auto", "TAN": "tan", "TOAST": "toast"}[arg["method"]]
+                        cli.entrypoint(["view", "--tile-only", "--tiling-method", method, "-j", "1"] + paths)
                     else:
                         raise ValueError(kind)
                 o = _observe(outdir, log)
@@ -418,10 +469,10 @@ def judge_module(cases):
     return tla.module("MCWtmlJudge", ["Wtml", "Json", "IOUtils"], defs)
 
 
-def history_module(pops, ext, emit_from):
+def history_module(pops, ext, emit_from, only_interrupted=False):
     fn = " @@ ".join("(%s :> %s)" % (tla.lit(i), tla.lit(set(tuple(p) for p in ps))) for i, ps in sorted(pops.items()))
     defs = [("MCInputs", tla.lit(set(pops))), ("MCPop", fn), ("MCExt", tla.lit(chars(ext))),
-            'Emit == Len(hist) >= %d => PrintT(<<"H", ToJson(hist)>>)' % emit_from]
+            'Emit == (Len(hist) >= %d%s) => PrintT(<<"H", ToJson(hist)>>)' % (emit_from, " /\\ NFails > 0" if only_interrupted else "")]
     return tla.module("MCWtmlHistory", ["WtmlHistory", "Json"], defs)
 
 
@@ -445,10 +496,14 @@ CONSTANTS
  Scheme = "%(scheme)s"
  Ext <- MCExt
  MaxLen = %(maxlen)d
+ FailBudget = %(fails)d
+ Views = %(views)s
  ReuseRestores = %(restores)s
  OverrideClears = %(clears)s
  Cache = "%(cache)s"
+ Partial = "%(partial)s"
 INVARIANT ReturnedAgrees
+INVARIANT CompletedIsIndexed
 INVARIANT TemplateAddressesFiles
 INVARIANT LevelsIsDeepest
 INVARIANT FileTypeIsExt
@@ -538,7 +593,9 @@ def run(ctx):
                 "naming schemes), one observation per step; (c) histories of the tile_fits machine explored to 4 calls: thorough replays every 4-call history, quick every 3-call history "
                 "plus the family fresh(X), reuse, override(Y#X), reuse and a seeded sample of other 4-call histories (prefixes are "
                 "checked after each call); the inputs include a 10-level pyramid so that directory states with two-digit level names are "
-                "overridden and reused; out_dir spelled absolute / relative / x/../out in turn. distinct = distinct (scheme, format, position) / observation / history")
+                "overridden and reused; out_dir spelled absolute / relative / x/../out in turn; plus histories (3 calls) with one call interrupted "
+                "after its tiles and before its index and with calls through `toasty view` (thorough: all; quick: one continuation of every "
+                "2-call beginning `interrupted ; any call` + a seeded sample). distinct = distinct (scheme, format, position) / observation / history")
     indir = ctx.mkdtemp("inputs")
     inp = make_inputs(indir, quick)
 
@@ -651,6 +708,13 @@ def run(ctx):
         depth = 4 if quick else 5
         deep = sample_deep(rng, 160 if quick else 1200, depth + 1, 12)
         outp = os.path.join(ctx.scratch, "naming.json")
+        # (the walk of WtmlWalk.tla, reported further down, runs in a second JVM at the same time)
+        from concurrent.futures import ThreadPoolExecutor
+        wdepth = 5 if quick else 8
+        wmod = tla.module("MCWtmlWalk", ["WtmlWalk"], [("MCExts", tla.lit(set(tuple(chars(e)) for e in formats)))])
+        walker = ThreadPoolExecutor(1)
+        walk_run = walker.submit(ctx.tlc, "MCWtmlWalk", extra={"MCWtmlWalk.tla": wmod}, cfg_text=WALK_CFG % wdepth,
+                                 workers=4 if quick else 8, timeout=3000)
         ctx.tlc("MCWtmlNaming", extra={"MCWtmlNaming.tla": naming_module(combos, depth, deep, formats)}, cfg_text="",
                 env={"OUT": outp}, workers=1, timeout=900, count=False)
         table = json.load(open(outp))
@@ -702,9 +766,8 @@ def run(ctx):
                                "rows": [[r["p"], join(r["exp"])] for r in table[0]["rows"][:5]]}})
 
         # the same theorems as invariants of a walk over every position to depth 5 (thorough 8), every scheme and format
-        wdepth = 5 if quick else 8
-        wmod = tla.module("MCWtmlWalk", ["WtmlWalk"], [("MCExts", tla.lit(set(tuple(chars(e)) for e in formats)))])
-        rw = ctx.tlc("MCWtmlWalk", extra={"MCWtmlWalk.tla": wmod}, cfg_text=WALK_CFG % wdepth, workers=4 if quick else 8, timeout=3000)
+        rw = walk_run.result()
+        walker.shutdown()
         ctx.note("walk", {"depth": wdepth, "states": rw.distinct})
         lap("naming")
         # ---------------------------------------------------------------- collect the workflows
@@ -728,9 +791,10 @@ def run(ctx):
         # 3-call history and, of the 4-call ones, the family fresh(X), reuse, override(Y # X), reuse (the shortest shape on
         # which state kept by the calling process across an override can show) plus a seeded sample of the others.
         hmod = {"MCWtmlHistory.tla": history_module(pops, FITS_EXT, 3 if quick else 4)}
-        cfg = {"scheme": "L/Y/YX", "maxlen": 4, "restores": "TRUE", "clears": "TRUE", "cache": "none"}
+        cfg = {"scheme": "L/Y/YX", "maxlen": 4, "restores": "TRUE", "clears": "TRUE", "cache": "none", "fails": 0, "views": "FALSE",
+               "partial": "asfound"}
         rh = ctx.tlc("MCWtmlHistory", extra=hmod, cfg_text=HISTORY_CFG % cfg, workers=4, timeout=1800)
-        hkey = lambda h: [(st["input"], st["override"]) for st in h]      # noqa: E731
+        hkey = lambda h: [(st["input"], st["override"], st["via"], st["kind"] if st["via"] == "interrupted" else "") for st in h]      # noqa: E731
         allh = sorted(rh.json_lines("H"), key=hkey)
         lap("history_tlc")
         if not allh:
@@ -754,12 +818,49 @@ def run(ctx):
         else:
             hists = [h for h in allh if len(h) == 4]
         hists.sort(key=hkey)
+        # INTERRUPTED RUNS: the same machine with one call of a history interrupted after its tiles and before its index
+        # (Fail: "late" = between the last tile and the index, "base" = when the cascade starts) and with calls that come
+        # through `toasty view`; explored to 3 calls.  Thorough replays every such history; quick replays, for every
+        # 2-call beginning (interrupted X ; any call), one seeded 3-call continuation, plus a seeded sample of the
+        # histories whose interrupted call comes second or third.
+        ipops = {i: pops[i] for i in (hist_inputs[:2] if quick else [i for i in hist_inputs if i != "C"])}
+        imod = {"MCWtmlHistory.tla": history_module(ipops, FITS_EXT, 3, only_interrupted=True)}
+        icfg = dict(cfg, maxlen=3, fails=1, views="TRUE")
+        ri = ctx.tlc("MCWtmlHistory", extra=imod, cfg_text=HISTORY_CFG % icfg, workers=4, timeout=1800)
+        ih = sorted(ri.json_lines("H"), key=hkey)
+        lap("interrupted_tlc")
+        if not ih:
+            ctx.machinery("TLC emitted no history with an interrupted call")
+        if quick:
+            first = {}
+            for h in ih:
+                if h[0]["via"] == "interrupted":
+                    first.setdefault(tuple(hkey(h)[:2]), []).append(h)
+            later = [h for h in ih if h[0]["via"] != "interrupted"]
+            ihists = [rng.choice(first[k]) for k in sorted(first)] + rng.sample(later, min(12, len(later)))
+        else:
+            ihists = ih
+        ihists.sort(key=hkey)
+        ctx.note("interrupted_histories", {"inputs": sorted(ipops), "explored_calls": 3, "states": ri.distinct, "generated": len(ih),
+                                           "replayed": len(ihists)})
         # the output directory is named in turn by its absolute path, relative to the working directory, and by a
         # differently spelled relative path; the stale-cache family never uses the absolute spelling
         hflows = []
         nfam = nother = 0
-        for n, h in enumerate(hists):
-            w = wf("hist-%d" % n, [fits_call(st["input"], st["override"]) for st in h], "tile_fits-history")
+        def step_of(st, natural):
+            if st["via"] == "view":
+                fits, method = FITS_INPUTS[st["input"]]
+                return ("view", {"fits": fits, "method": method, "input": st["input"], "override": False})
+            kind, arg = fits_call(st["input"], st["override"])
+            if st["via"] == "interrupted":
+                mode = st["kind"][len("fail-"):]
+                fits, method = FITS_INPUTS[st["input"]]
+                # a single TAN image also has a natural way into the "base" state: a keyword the cascade rejects
+                arg["interrupt"] = "kw" if (natural and mode == "base" and st["input"] in ("A", "B", "D")) else mode
+            return (kind, arg)
+
+        for n, h in enumerate(hists + ihists):
+            w = wf("hist-%d" % n, [step_of(st, n % 2 == 1) for st in h], "tile_fits-history")
             w["spec"] = h
             if stale_shape(h):
                 w["path_style"] = ("rel", "respelled")[nfam % 2]
@@ -772,14 +873,21 @@ def run(ctx):
                                               "fresh_reuse_override_reuse": sum(1 for h in hists if stale_shape(h))})
         pending_h = pool.map_async(run_workflow, hflows, chunksize=2)
         # while the replays run: the machine must be able to tell the defects apart (both variants are refuted)
-        for variant, inv in (({"restores": "FALSE", "maxlen": 3}, "ReturnedAgrees"), ({"clears": "FALSE", "maxlen": 3}, "LevelsIsDeepest"),
-                             ({"cache": "stale"}, "ReturnedAgrees")):
-            c2 = dict(cfg)
+        variants = [(cfg, hmod, {"restores": "FALSE", "maxlen": 3}, "ReturnedAgrees"), (cfg, hmod, {"clears": "FALSE", "maxlen": 3}, "LevelsIsDeepest"),
+                    (cfg, hmod, {"cache": "stale"}, "ReturnedAgrees"),
+                    (icfg, imod, {"partial": "view-indexes"}, "LevelsIsDeepest"), (icfg, imod, {"partial": "index-guards"}, "LevelsIsDeepest")]
+
+        def run_variant(v):
+            c0, mod, variant, inv = v
+            c2 = dict(c0)
             c2.update(variant)
-            rv = ctx.tlc("MCWtmlHistory", extra=hmod, cfg_text=(HISTORY_CFG % c2).replace("INVARIANT Emit\n", ""), workers=1,
+            rv = ctx.tlc("MCWtmlHistory", extra=mod, cfg_text=(HISTORY_CFG % c2).replace("INVARIANT Emit\n", ""), workers=1,
                          timeout=600, expect_violation=True, count=False)
-            if rv.violated != inv:
-                ctx.machinery("history machine variant %s: expected %s to be refuted, TLC says %r" % (variant, inv, rv.violated))
+            return variant, inv, rv.violated
+        with ThreadPoolExecutor(3) as tp:
+            for variant, inv, got in tp.map(run_variant, variants):
+                if got != inv:
+                    ctx.machinery("history machine variant %s: expected %s to be refuted, TLC says %r" % (variant, inv, got))
         lap("variants_tlc")
         hdone = pending_h.get(6000)
         lap("replays")
@@ -810,6 +918,8 @@ def run(ctx):
             for k, o in enumerate(w["obs"]):
                 ctx.count()
                 c = case_of(o)
+                if c is None and not o["wtml"] and "spec" in w and not w["spec"][k]["indexed"]:
+                    continue        # an interrupted run / a reuse of what it left: no index, no claim to judge
                 if c is None:
                     ctx.violation("C17:%s:no-wtml" % w["group"], "%s step %d: index_rel.wtml is missing or does not hold exactly one ImageSet with a Url: %r"
                                   % (w["name"], k, o["wtml"]), {"workflow": w["name"], "steps": _steps(w)})
@@ -827,7 +937,7 @@ def run(ctx):
         for w, k, o, c in judged:
             v, case = verdicts[c], cases[c]
             g = w["group"]
-            where = "%s step %d (%s)" % (w["name"], k, _step_text(w["steps"][k]))
+            where = "%s step %d (%s)" % (w["name"], k + 1, " ; ".join(_steps(w)[:k + 1]) if "spec" in w else _step_text(w["steps"][k]))
             rep = {"workflow": w["name"], "steps": _steps(w)[:k + 1]}
             if (c, g) not in reported:
                 reported.add((c, g))
@@ -857,12 +967,17 @@ def run(ctx):
                             "tile_files": len(case["files"]), "saves_observed": len(case["writes"]), "deepest_populated": v["deepest"]})
 
         # ---------------------------------------------------------------- (c) returned description and predicted directory
-        nh = 0
+        nh = nint = 0
         for w in list(done) + list(hdone):
             spec = w.get("spec")
             for k, o in enumerate(w["obs"]):
-                if "ret" not in o:
-                    continue
+                if spec is not None and spec[k]["via"] == "interrupted" and "raised" not in o:
+                    ctx.drift("%s call %d: the call was to be interrupted but ran to completion" % (w["name"], k + 1))
+                if spec is not None and not spec[k]["indexed"] and o["wtml"]:
+                    ctx.drift("%s call %d (%s): an index_rel.wtml exists where the machine expects none (judged separately)"
+                              % (w["name"], k + 1, " ; ".join(_steps(w)[:k + 1])))
+                if "ret" not in o or o.get("disk") is None:
+                    continue        # nothing handed back (view, interrupted) or no index to agree with
                 if spec is not None:
                     st = spec[k]
                     kind = st["kind"]
@@ -892,8 +1007,9 @@ def run(ctx):
             if spec is not None:
                 nh += 1
                 ctx.trace_ok()
-                ctx.distinct(("hist", tuple((s["input"], s["override"]) for s in spec)))
-                if nh <= 2:
+                ctx.distinct(("hist", tuple((s["input"], s["override"], s["via"], s["kind"]) for s in spec)))
+                if nh <= 2 or (any(s["via"] == "interrupted" for s in spec) and nint < 2):
+                    nint += any(s["via"] == "interrupted" for s in spec)
                     ctx.sample({"history": [[s["input"], "override" if s["override"] else "", s["kind"], "disk=" + s["disk"],
                                              "ret=" + s["ret"], "levels=%d" % s["levels"], "%d files" % len(s["files"])] for s in spec]})
         ctx.note("histories_replayed", nh)
@@ -917,7 +1033,11 @@ def _step_text(step):
     if kind == "cli":
         return "toasty " + " ".join(a if os.sep not in a else os.path.basename(a) for a in arg)
     if kind == "tile_fits":
-        return "tile_fits(%s%s)" % (arg["input"], ", override=True" if arg["override"] else "")
+        how = {None: "", "late": " INTERRUPTED before the index", "base": " INTERRUPTED when the cascade starts",
+               "kw": ", order='bilinear') raising in the cascade"}[arg.get("interrupt")]
+        return "tile_fits(%s%s)%s" % (arg["input"], ", override=True" if arg["override"] else "", how)
+    if kind == "view":
+        return "toasty view --tile-only (%s)" % arg["input"]
     if kind == "cascade-recorded":
         return "toasty cascade --start <recorded TileLevels>"
     if kind == "builder-study":
